@@ -284,15 +284,38 @@ deriving Repr, DecidableEq
 inductive DType where | integer | string | date
 deriving Repr, DecidableEq
 
-/-- `tsdb.format(datatype, value)` with `default=None` as `Row.__init__` calls it.
-A value whose Python type does not fit the datatype is `str(value)` — only the matching
-combinations are modelled. -/
+def padTo (k : Nat) (cs : List Char) : List Char := List.replicate (k - cs.length) '0' ++ cs
+
+/-- `str(datetime)` at second resolution: `YYYY-MM-DD HH:MM:SS`. -/
+def strDateTime (t : DT) : List Char :=
+  padTo 4 (natDigits t.y) ++ '-' :: pad2 t.mo ++ '-' :: pad2 t.d ++ ' ' :: pad2 t.H ++ ':' :: pad2 t.M ++ ':' :: pad2 t.S
+
+/-- `str(value)` -/
+def strVal (v : Val) : List Char :=
+  match v with
+  | .none => ['N', 'o', 'n', 'e']
+  | .int i => formatInt i
+  | .str s => s
+  | .date t => strDateTime t
+
+/-- `tsdb.format(datatype, value, default)`: `None` ↦ the default if one is given, else `-1` for `:integer` and
+`''` otherwise; a date-time in a `:date` column ↦ the TSDB date format; everything else ↦ `str(value)` (also a
+value whose Python type does not fit the datatype). -/
+def formatPy (dt : DType) (v : Val) (default : Option (List Char)) : List Char :=
+  match v with
+  | .none => match default with
+    | some d => d
+    | none => if dt = .integer then ['-', '1'] else []
+  | .date t => if dt = .date then formatDate t else strDateTime t
+  | v => strVal v
+
+/-- `tsdb.format(datatype, value)` with `default=None`, as `Row.__init__` calls it. -/
 def format (dt : DType) (v : Val) : List Char :=
   match v with
   | .none => if dt = .integer then ['-', '1'] else []
   | .int i => formatInt i
   | .str s => s
-  | .date t => formatDate t
+  | .date t => if dt = .date then formatDate t else strDateTime t
 
 inductive CastRes where
   | val (v : Val)
@@ -424,20 +447,6 @@ def Field.default (f : Field) : List Char :=
   | some p => p.2.toList
   | none => if f.dt = .integer then ['-', '1'] else []
 
-def padTo (k : Nat) (cs : List Char) : List Char := List.replicate (k - cs.length) '0' ++ cs
-
-/-- `str(datetime)` at second resolution: `YYYY-MM-DD HH:MM:SS`. -/
-def strDateTime (t : DT) : List Char :=
-  padTo 4 (natDigits t.y) ++ '-' :: pad2 t.mo ++ '-' :: pad2 t.d ++ ' ' :: pad2 t.H ++ ':' :: pad2 t.M ++ ':' :: pad2 t.S
-
-/-- `str(value)` -/
-def strVal (v : Val) : List Char :=
-  match v with
-  | .none => ['N', 'o', 'n', 'e']
-  | .int i => formatInt i
-  | .str s => s
-  | .date t => strDateTime t
-
 /-- `format(f.datatype, value, default=f.default)`: `None` ↦ the field's default; a date-time in a
 `:date` column ↦ the TSDB date format; everything else ↦ `str(value)`. -/
 def formatField (f : Field) (v : Val) : List Char :=
@@ -474,5 +483,70 @@ def splitTyped (fields : List Field) (line : List Char) : Except Err (List Val) 
     else if raw.length ≠ fields.length then .error .tsdbError
     else (List.zipWith (fun (col : Option (List Char)) (f : Field) => (f.dt, col.getD [])) raw fields).mapM
       (fun p => cellOf (castPy p.1 p.2))
+
+/-! ### `make_record`, `Row.__str__/__len__/keys`, relation files (round 6) -/
+
+/-- the attributes of a Python `tsdb.Field` that the source-translated functions read (Generated/TransC08.lean):
+the Lean field names are the Python attribute names. -/
+structure PyField where
+  name : List Char
+  datatype : List Char
+deriving Repr, DecidableEq
+
+def DType.pyName : DType → List Char
+  | .integer => ":integer".toList
+  | .string => ":string".toList
+  | .date => ":date".toList
+
+def Field.py (f : Field) : PyField := { name := f.name, datatype := f.dt.pyName }
+
+/-- `tsdb.make_record(colmap, fields)` = `tuple(colmap.get(f.name, None) for f in fields)`.  The dict is an
+association list with distinct keys in insertion order; a missing column and a column holding `None` both give
+`None`. -/
+def makeRecord (colmap : List (List Char × Val)) (fields : List Field) : List Val :=
+  fields.map (fun f => (colmap.lookup f.name).getD .none)
+
+/-- the fields of a row (`names` and `types` come from one field list). -/
+def Row.fields (r : Row) : List Field := List.zipWith Field.mk r.names r.types
+
+/-- `Row(fields, data)` raises `ITSDBError` (a `TSDBError`) when the counts differ. -/
+def mkRowChecked (types : List DType) (names : List (List Char)) (vals : List Val) : Except Err Row :=
+  if vals.length ≠ types.length then .error .tsdbError else .ok (mkRow types names vals)
+
+/-- iteration as the driver reports it: the values, or the first error raised by a cast. -/
+def Row.values (r : Row) : Except Err (List Val) :=
+  (List.zipWith (fun t d => (t, d)) r.types r.data).mapM (fun p => cellOf (castPy p.1 p.2))
+
+/-- `str(row)` = `tsdb.join(row, row.fields)`: the row is iterated (cast of the raw data) and joined with
+its fields. -/
+def Row.str (r : Row) : Except Err (List Char) :=
+  match r.values with
+  | .error e => .error e
+  | .ok vs => joinTyped r.fields vs
+
+/-- the text `tsdb.write(dir, name, records, fields)` leaves in the relation file: `join(record, fields) + '\n'`
+per record.  The first failing `join` aborts the call before anything reaches the file (temporary file). -/
+def writeText (fields : List Field) (recs : List (List Val)) : Except Err (List Char) :=
+  match recs.mapM (joinTyped fields) with
+  | .error e => .error e
+  | .ok ls => .ok (ls.map (· ++ ['\n'])).flatten
+
+/-- the lines of a file opened with `newline='\n'` (what `tsdb.open` does): a line ends after each `\n`
+and only there; a non-empty rest without `\n` is a last line. -/
+def linesOf : List Char → List (List Char)
+  | [] => []
+  | c :: r =>
+    if c = '\n' then ['\n'] :: linesOf r
+    else match linesOf r with
+      | [] => [[c]]
+      | l :: ls => (c :: l) :: ls
+
+/-- `Database(dir)[name]` (`autocast=False`) / `split(line)` per line of the file. -/
+def readRaw (text : List Char) : Except Err (List (List (Option (List Char)))) :=
+  (linesOf text).mapM splitRaw
+
+/-- `Database(dir, autocast=True)[name]` / `split(line, fields)` per line of the file. -/
+def readTyped (fields : List Field) (text : List Char) : Except Err (List (List Val)) :=
+  (linesOf text).mapM (splitTyped fields)
 
 end Verif.C08
